@@ -21,7 +21,7 @@ DAY = D.timedelta(days=1)
 SEC = D.timedelta(seconds=1)
 
 RULES = ['daily6', 'alt4', 'weekly3', 'daily12c', 'hourly']
-DATES = ['d_occ', 'd_off', 'd_before', 'd_after', 'd_occ2', 'd_dup']
+DATES = ['d_occ', 'd_off', 'd_before', 'd_after', 'd_occ2', 'd_dup', 'd_us']
 
 
 def make_rule(name):
@@ -41,7 +41,8 @@ def make_rule(name):
 
 def make_date(name):
     return {'d_occ': D0 + 2 * DAY, 'd_off': D0 + 2 * DAY + SEC, 'd_before': D0 - 30 * DAY,
-            'd_after': D0 + 60 * DAY, 'd_occ2': D0 + 8 * DAY, 'd_dup': D0 + 2 * DAY}[name]
+            'd_after': D0 + 60 * DAY, 'd_occ2': D0 + 8 * DAY, 'd_dup': D0 + 2 * DAY,
+            'd_us': D0 + 2 * DAY + D.timedelta(microseconds=500000)}[name]      # a listed instant need not be a whole second
 
 
 _LISTS = {}
